@@ -58,7 +58,7 @@ FIRST_CONTACT_R4 = {
 FIRST_CONTACT_R6C = {
     "C01-r6C": "C01", "C02-r6C": "C02 C03 C06 (all three for a wrong reason; now undecided)", "C03-r6C": "none (undecided)", "C04-r6C": "C04 C05 C16", "C05-r6C": "none (undecided)",
     "C06-r6C": "C06", "C07-r6C": "C06 C07 (wrong reason; now undecided)", "C08-r6C": "C06 only - C08 was silent (generators did not carry iteration order)", "C09-r6C": "C09",
-    "C10-r6C": "C02", "C11-r6C": "none (undecided)", "C12-r6C": "none (undecided)", "C13-r6C": "C13 C14 (wrong reason; now undecided)", "C14-r6C": "C13 C14 (C14 for a wrong reason; now C13 only)",
+    "C10-r6C": "C02", "C11-r6C": "none (undecided)", "C12-r6C": "none (undecided)", "C13-r6C": "C13 C14 (reports that did not name the slip; now undecided)", "C14-r6C": "C13 C14 (C14 for a wrong reason; now C13 only)",
     "C15-r6C": "none (undecided)", "C16-r6C": "C04", "C17-r6C": "C07 C17 (C07 for a wrong reason; now C17 only)", "C18-r6C": "C18", "C19-r6C": "C19", "C20-r6C": "C12 C20",
 }
 
